@@ -23,6 +23,7 @@ var Registry = map[string]func(*core.Run){
 	"C19": C19,
 	"C20": C20,
 	"E2E": E2E,
+	"PIPE": PIPE,
 	"C04": C04,
 	"C05": C05,
 }
